@@ -934,7 +934,7 @@ fn main() {
         "exit_statuses": agg.exits,
         "runs_per_hour": if hours > 0.0 { (agg.runs as f64 / hours) as u64 } else { 0 },
         "seeds": {"master": seed, "sub_seeds": agg.runs},
-        "simulated_time": "none: scripts never stall, so the only timer on these paths (reqwest's 30 s timeout) is never reached; pacing sleeps of 1 ms between segments are outcome-neutral",
+        "simulated_time": "no simulated clock (reqwest has no clock seam). Real time appears only in two script families whose outcome does not depend on its exact amount: slow-but-live replies (0.5-1.5 s pauses, far below the client's 30 s timeout) and, in the thorough tier, stalled endpoints that the client's own timeout must end",
         "determinism": {"plans_run_twice": det_done.load(Ordering::Relaxed), "diverging": det_diff.len()},
         "components": {
             "real": ["graphql-client binary (clap, Header::from_str, reqwest::blocking, hyper, tokio runtime thread, serde_json, file output), guard off, from /repo working tree", "graphql-client generate (both routes) for the last clause", "kernel loopback TCP"],
